@@ -33,7 +33,7 @@ echo "SEED $name: demo passes on base: $bok ; demo fails with change: $mok (pkg 
 # run the check against /repo with the patch applied
 git -C /repo apply $dir/patch.diff || { echo "SEED $name: git apply failed on /repo"; exit 1; }
 out=$(VERIF_OUT=/var/tmp/verif-seedout ./build/govc check --prop $id 2>&1); rc=$?
-git -C /repo checkout -- .
+git -C /repo apply -R $dir/patch.diff
 caught=$(echo "$out" | grep "^FAILED" | sed 's/:.*//; s/FAILED //' | sort -u | head -6 | paste -sd' ')
 echo "SEED $name: check $id rc=$rc caught-by: ${caught:-NONE}"
 mkdir -p seeded/$name; cp $dir/patch.diff $dir/demo_test.go seeded/$name/; [ -f $dir/notes.md ] && cp $dir/notes.md seeded/$name/
@@ -42,7 +42,7 @@ import json,sys
 name,id,bok,mok,rc,caught,pkg,tests=sys.argv[1:]
 json.dump({"property":id,"demo_package":pkg,"demo_tests":tests,"demo_passes_on_base":bok=="yes","demo_fails_with_change":mok=="yes",
  "check_exit_code":int(rc),"caught_by_obligations":caught.split() if caught else [],
- "what_i_ran":[f"go test -overlay <cgo overlay> -run '^({tests})$' ./{pkg} in a scratch copy of /repo with and without patch.diff",f"git -C /repo apply patch.diff; ./check {id}; git -C /repo checkout -- ."],
+ "what_i_ran":[f"go test -overlay <cgo overlay> -run '^({tests})$' ./{pkg} in a scratch copy of /repo with and without patch.diff",f"git -C /repo apply patch.diff; ./check {id}; git -C /repo apply -R $dir/patch.diff"],
  "needs_to_manifest":"see notes.md"},open(f"/verif/seeded/{name}/meta.json","w"),indent=1)
 PY
 rm -rf /var/tmp/verif-seedout
